@@ -1,9 +1,9 @@
 #!/bin/bash
-# confirm_seed.sh <ID> <k>: re-confirm seeded change /tmp/seed-<ID>-out/m<k> in the scratch worktree /tmp/seed-<ID>:
+# confirm_seed.sh <ID> <k> [round]  (round 2: worktree /tmp/seed2-<ID>, stored as seeded/<ID>-m<k+2>): re-confirm seeded change /tmp/seed2-<ID>-out/m<k> in the scratch worktree /tmp/seed2-<ID>:
 # compiles, demo fails with it, repo test suite passes with it, demo passes without it.
 # On success copies it to /verif/seeded/<ID>-m<k>/ and writes confirm.json there.
 ID=$1; K=$2
-W=/tmp/seed-$ID; O=/tmp/seed-$ID-out/m$K; S=/verif/seeded/$ID-m$K
+R=${3:-}; W=/tmp/seed$R-$ID; O=/tmp/seed$R-$ID-out/m$K; N=$K; [ "$R" = "2" ] && N=$((K+2)); S=/verif/seeded/$ID-m$N
 LOG=$O/confirm.log; : > $LOG
 cd $W || exit 2
 git checkout -q -- . ; git apply $O/patch.diff || { echo "patch does not apply" | tee -a $LOG; exit 2; }
@@ -17,11 +17,11 @@ echo "ID=$ID k=$K demo_with_rc=$RC_WITH demo_without_rc=$RC_WITHOUT tests_pass=$
 if [ $RC_WITH -ne 0 ] && [ $RC_WITHOUT -eq 0 ] && [ $NFAIL -eq 0 ] && [ $NPASS -gt 1500 ]; then
   mkdir -p $S; cp $O/patch.diff $O/demo.c $O/run.sh $O/meta.json $S/ 2>/dev/null
   cp $O/confirm_with.txt $S/demo_with.txt; cp $O/confirm_without.txt $S/demo_without.txt
-  python3 - "$S" "$ID" "$K" "$RC_WITH" "$RC_WITHOUT" "$NPASS" <<'PY'
+  python3 - "$S" "$ID" "$N" "$RC_WITH" "$RC_WITHOUT" "$NPASS" <<'PY'
 import json,sys
 S,ID,K,rw,rwo,np=sys.argv[1:]
 m=json.load(open(S+"/meta.json"))
-m["confirmed_by_coordinator"]={"worktree":"/tmp/seed-%s (git worktree of /repo HEAD + build products)"%ID,
+m["confirmed_by_coordinator"]={"worktree":"scratch git worktree of /repo HEAD + build products under /tmp (property %s)"%ID,
   "ran":["git apply patch.diff; make -j8","bash run.sh <worktree> -> exit %s (fails with the change)"%rw,
          "make -j8 check -> %s PASS, 0 FAIL/ERROR"%np,"git checkout -- .; make -j8; bash run.sh <worktree> -> exit %s (passes without)"%rwo]}
 json.dump(m,open(S+"/meta.json","w"),indent=1)
